@@ -10,6 +10,7 @@ import PgVerif.Model.Cli
 import PgVerif.Spec.Cluster
 import PgVerif.Gen.Cluster
 import PgVerif.Model.ClusterHyp
+import PgVerif.Spec.Toast
 namespace Driver.Fam
 open PgVerif Driver
 open PgVerif.Spec (Cluster Options TableDump DatabaseDump DumpResult ColumnInfo)
@@ -23,9 +24,10 @@ def showColInfo (c : ColumnInfo) : String :=
 def showTable (t : TableDump) : String :=
   s!"T{t.oid}:{hexOf t.name}:{t.filenode}:{hexOf t.kind}:c={joinWith "," (t.columns.map showColInfo)}:n={t.rowCount}:r={showRows t.rows}"
 
-/-- tables in filenode order (order is C11's business; filenodes are unique within a database) -/
+/-- tables in the order of the result (the Spec's canonical order is filenode order, which is what the tool emits since
+fixes/cluster/01; no sorting on either side any more: remediation R6) -/
 def showDb (d : DatabaseDump) : String :=
-  s!"D{d.oid}:{hexOf d.name}[{joinWith "@" ((Spec.sortTables d.tables).map showTable)}]"
+  s!"D{d.oid}:{hexOf d.name}[{joinWith "@" (d.tables.map showTable)}]"
 
 def showDump (r : DumpResult) : String := joinWith "#" (r.map showDb)
 
@@ -71,6 +73,19 @@ def clusterDumpEval (args : List String) : String :=
 
 def flipCase (s : Bytes) : Bytes := s.map fun b => if 97 ≤ b ∧ b ≤ 122 then b - 32 else if 65 ≤ b ∧ b ≤ 90 then b + 32 else b
 
+/-- case flip that also flips the Latin-1 letters (C3 80..9E ↔ C3 A0..BE), the basic Greek (CE 91..A9 → +0x20, wrapping
+into CF) and Cyrillic capitals (D0 90..AF → D0 B0..BF / D1 80..8F) — names and filters beyond ASCII case (finding C3) -/
+def flipCaseU : Bytes → Bytes
+  | 0xC3 :: x :: rest =>
+    (if 0x80 ≤ x ∧ x ≤ 0x9E ∧ x ≠ 0x97 then [0xC3, x + 0x20] else if 0xA0 ≤ x ∧ x ≤ 0xBE ∧ x ≠ 0xB7 then [0xC3, x - 0x20] else [0xC3, x]) ++ flipCaseU rest
+  | 0xCE :: x :: rest =>
+    (if 0x91 ≤ x ∧ x ≤ 0x9F then [0xCE, x + 0x20] else if 0xA0 ≤ x ∧ x ≤ 0xA9 ∧ x ≠ 0xA2 then [0xCF, x - 0x20] else [0xCE, x]) ++ flipCaseU rest
+  | 0xD0 :: x :: rest =>
+    (if 0x90 ≤ x ∧ x ≤ 0x9F then [0xD0, x + 0x20] else if 0xA0 ≤ x ∧ x ≤ 0xAF then [0xD1, x - 0x20] else [0xD0, x]) ++ flipCaseU rest
+  | 0xE2 :: 0x84 :: 0xAA :: rest => 0x6B :: flipCaseU rest          -- KELVIN SIGN ↔ k
+  | b :: rest => (if 97 ≤ b ∧ b ≤ 122 then b - 32 else if 65 ≤ b ∧ b ≤ 90 then b + 32 else b) :: flipCaseU rest
+  | [] => []
+
 def genDbFilter (c : Cluster) : Gen Bytes := do
   let names := (c.dbs.live.map (·.name))
   let nm ← Gen.oneOf (names ++ [strBytes "nosuchdb"])
@@ -86,8 +101,8 @@ def genTableFilter (c : Cluster) : Gen Bytes := do
   | 0 => pure (strBytes "zzz")
   | 1 => pure (strBytes "USER")
   | 2 => pure (strBytes "sql")
-  | 3 => pure (flipCase nm)
-  | 4 => pure nm
+  | 3 => (do if nm.any (· ≥ 128) ∧ (← Gen.bool) then pure (flipCaseU nm) else pure (flipCase nm))
+  | 4 => (do if nm.any (· ≥ 128) ∧ (← Gen.prob 1 4) then Gen.oneOf [[0xE8], [0xC3], nm.take 1] else pure nm)
   | _ =>
     -- a substring, in random case
     let a ← Gen.below nm.length
@@ -127,6 +142,67 @@ def miniCluster (pgVersion : Nat) (boot : Bool) (attrs : List (Spec.Stored Spec.
 
 def liveRow (vals : List (Option Spec.Datum)) : Spec.RowV := { vals, natts := vals.length, infomask := 0x0900 }
 
+/-! witnesses of the OPEN findings of fixes/cluster/known_findings.json (fixed cases 4..8) and a case beyond ASCII case (9) -/
+
+def idNameAttrs : List (Spec.Stored Spec.AttrRow) := [mkAttr 16384 1 "id" 23 4 4, mkAttr 16384 2 "body" 25 (-1) 4]
+
+def oneTableDb (tname : Bytes) (rows : List (List Spec.RowV)) (tblspc : Nat := 0) : Spec.DbContent :=
+  { cls := [[⟨{ oid := 1259, name := strBytes "pg_class", kind := 114, filenode := 0, nsp := 11 }, 0x0B00⟩,
+             ⟨{ oid := 16384, name := tname, kind := 114, filenode := 16390, tblspc }, 0x0900⟩]],
+    att := [Gen.bootstrapAttrs ++ idNameAttrs], heaps := [(16390, rows)], raws := [] }
+
+def tplRow : Spec.Stored Spec.DbRow := ⟨{ oid := 1, name := strBytes "template1", isTemplate := true }, 0x0B00⟩
+
+/-- C01-TPL: a user database `template_foo` (datistemplate false) and a template database `golden` (datistemplate true) -/
+def witnessTPL : Cluster :=
+  { pgVersion := 15,
+    dbs := [[tplRow, ⟨{ oid := 16500, name := strBytes "template_foo" }, 0x0900⟩,
+             ⟨{ oid := 16600, name := strBytes "golden", isTemplate := true }, 0x0900⟩]],
+    content := [(16500, oneTableDb (strBytes "t") [[liveRow [i4 1, some (.short (strBytes "user data"))]]]),
+                (16600, oneTableDb (strBytes "g") [[liveRow [i4 2, some (.short (strBytes "template data"))]]])] }
+
+/-- 100 × 'a' as PostgreSQL's pglz stores it: va_tcinfo = 100, control byte 0x02, 'a', one match (offset 1, length 99) -/
+def hundredA : Spec.Toast.Content := .pglz [.lit 97, .mat 1 99]
+
+/-- A02 (inline-compressed): `t (id int4, body text)` with one row (7, 100 × 'a' compressed in line) -/
+def witnessA02c : Cluster :=
+  let d := Spec.Datum.compressed hundredA.stored
+  { pgVersion := 14, dbs := [[tplRow, ⟨{ oid := 5, name := strBytes "postgres" }, 0x0900⟩]],
+    content := [(5, { oneTableDb (strBytes "t") [[liveRow [i4 7, some d]]] with detoast := [(d, hundredA.original)] })] }
+
+/-- A02 (out of line): the same table with a 2500-byte value moved to its TOAST relation 16393 (two chunks) -/
+def witnessA02e : Cluster :=
+  let v : Spec.Toast.ToastValue := { id := 70000, relid := 16393, content := .plain (List.replicate 2500 120), cuts := [1996, 504] }
+  let dat := Spec.Datum.external ((Spec.Toast.encExtPtr (Spec.Toast.ptrOf v)).drop 2)
+  let base := oneTableDb (strBytes "t") [[liveRow [i4 7, some dat]]]
+  let lay : Spec.Toast.Layout := [(Spec.Toast.chunkRows v).map fun r => { row := r }]
+  { pgVersion := 14, dbs := [[tplRow, ⟨{ oid := 5, name := strBytes "postgres" }, 0x0900⟩]],
+    content := [(5, { base with
+      cls := [base.cls.flatten.map (fun (s : Spec.Stored Spec.ClassRow) => if s.val.oid == 16384 then { s with val := { s.val with toast := 16393 } } else s) ++
+              [⟨{ oid := 16393, name := strBytes "pg_toast_16384", kind := 116, filenode := 16393, nsp := 99, natts := 3 }, 0x0B00⟩]],
+      raws := [(16393, Spec.Toast.encToastRel lay)], detoast := [(dat, v.content.original)] })] }
+
+/-- C01-SEG: a heap of two pages in a build with one page per segment: files 16390 and 16390.1 -/
+def witnessSEG : Cluster :=
+  { pgVersion := 16, dbs := [[tplRow, ⟨{ oid := 5, name := strBytes "postgres" }, 0x0900⟩]],
+    content := [(5, oneTableDb (strBytes "t") [[liveRow [i4 1, some (.short (strBytes "first segment"))]],
+                                               [liveRow [i4 2, some (.short (strBytes "second segment"))]]])],
+    segPages := 1 }
+
+/-- C01-TBLSPC: the table lies in tablespace 16500: pg_tblspc/16500/PG_13_202007201/5/16390 -/
+def witnessTBLSPC : Cluster :=
+  { pgVersion := 13, dbs := [[tplRow, ⟨{ oid := 5, name := strBytes "postgres" }, 0x0900⟩]],
+    content := [(5, oneTableDb (strBytes "t") [[liveRow [i4 1, some (.short (strBytes "elsewhere"))]]] 16500)] }
+
+/-- beyond ASCII case (review finding C3): tables `été` and `caf\xe9` -/
+def witnessUnicode : Cluster :=
+  let d := oneTableDb [0xC3, 0xA9, 0x74, 0xC3, 0xA9] [[liveRow [i4 1, some (.short (strBytes "x"))]]]
+  { pgVersion := 14, dbs := [[tplRow, ⟨{ oid := 5, name := strBytes "postgres" }, 0x0900⟩]],
+    content := [(5, { d with
+      cls := [d.cls.flatten ++ [⟨{ oid := 16400, name := [0x63, 0x61, 0x66, 0xE9], kind := 114, filenode := 16400 }, 0x0900⟩]],
+      att := [d.att.flatten ++ [mkAttr 16400 1 "n" 23 4 4]],
+      heaps := d.heaps ++ [(16400, [[liveRow [i4 5]]])] })] }
+
 def fixedClusters : List (Cluster × List Options) :=
   [ -- 0: sanity: one table, two columns, one live and one dead row
     (miniCluster 14 true [mkAttr 16384 1 "id" 23 4 4, mkAttr 16384 2 "name" 25 (-1) 4]
@@ -141,11 +217,19 @@ def fixedClusters : List (Cluster × List Options) :=
     (miniCluster 14 true [mkAttr 16384 1 "flag" 16 1 1,
         ⟨{ relid := 16384, name := strBytes "........pg.dropped.2........", typid := 0, len := 64, num := 2, align := 1, dropped := true }, 0x0900⟩,
         mkAttr 16384 3 "n" 23 4 4]
-       [liveRow [some (.fixed [1]), some (.fixed (strBytes "old" ++ zeros 61)), i4 42]], [{}]) ]
+       [liveRow [some (.fixed [1]), some (.fixed (strBytes "old" ++ zeros 61)), i4 42]], [{}]),
+    -- 4..8: witnesses of the open findings C01-TPL, A02 (inline-compressed; out of line), C01-SEG, C01-TBLSPC
+    (witnessTPL, [{}, { dbFilter := strBytes "template_foo" }]),
+    (witnessA02c, [{}, { listOnly := true }]),
+    (witnessA02e, [{}]),
+    (witnessSEG, [{}]),
+    (witnessTBLSPC, [{}]),
+    -- 9: table filters beyond ASCII case: `-t ÉTÉ` finds `été`, `-t \xe8` finds `caf\xe9` in Go (the Spec is silent)
+    (witnessUnicode, [{ tableFilter := [0xC3, 0x89, 0x54, 0xC3, 0x89] }, { tableFilter := [0xE8] }, { tableFilter := strBytes "T" }]) ]
 
 def genClusterCase (seed idx size : Nat) : Cluster × List Options :=
   if idx < fixedClusters.length then fixedClusters.getD idx default else
-  (do let c ← Gen.genCluster size
+  (do let c ← Gen.genCluster size true
       let combos ← genCombos c idx (idx % 10 == 9)
       return (c, combos)).run' (Prng.ofSeed seed idx)
 
@@ -190,6 +274,32 @@ hypothesis: `Proofs.Cluster.dumpHypB_sound`).  Inside the scope the theorem says
 def dumpHypOK (c : Cluster) (combos : List Options) : Bool :=
   Gen.clusterWFB c && combos.all (Model.ClusterHyp.dumpHypB c)
 
+/-! the classes of the open findings (fixes/cluster/known_findings.json) and of the Spec's silence, as predicates on the
+abstract cluster and the options of the case.  `perDb` = every database with a directory is dumped whatever its name
+(families cluster_files and remote), otherwise the databases `o` selects. -/
+
+def anySelectedDb (c : Cluster) (combos : List Options) (perDb : Bool) (p : Options → Spec.DbContent → Bool) : Bool :=
+  combos.any fun o => c.dbs.live.any fun db => (perDb || Spec.selectedDb o db) &&
+    match c.content.lookup db.oid with | some d => p o d | none => false
+
+/-- C01-TPL: some live database is a template by name but not by datistemplate, or the other way round -/
+def inTPL (c : Cluster) : Bool := !decide (Spec.TemplatesByName c)
+/-- A02: some dumped row holds an inline-compressed or out-of-line value -/
+def inA02 (c : Cluster) (combos : List Options) (perDb : Bool) : Bool := anySelectedDb c combos perDb fun o d => !decide (Spec.A02Free d o)
+/-- C01-SEG: some heap has more pages than a segment holds -/
+def inSEG (c : Cluster) : Bool := c.segPages != 0 && c.content.any fun (_, d) => d.heaps.any fun h => h.2.length > c.segPages
+/-- C01-TBLSPC: a relation with a heap file lies outside the default tablespace -/
+def inTBLSPC (c : Cluster) : Bool := c.content.any fun (_, d) => d.cls.live.any fun r => r.tblspc != 0 && (d.heaps.lookup r.filenode).isSome
+/-- the table filter lies beyond ASCII case for some dumped database (`GoCase.FilterStable` fails): the Spec is silent -/
+def unicodeFilter (c : Cluster) (combos : List Options) (perDb : Bool) : Bool :=
+  anySelectedDb c combos perDb fun o d => !decide (Model.GoCase.FilterStable o d.cls.live)
+
+def findingTags (c : Cluster) (combos : List Options) (perDb : Bool) (tpl : Bool := !perDb) : List String :=
+  (if inTPL c ∧ tpl then ["kf:C01-TPL"] else []) ++ (if inA02 c combos perDb then ["kf:A02"] else []) ++
+  (if inSEG c then ["kf:C01-SEG"] else []) ++ (if inTBLSPC c then ["kf:C01-TBLSPC"] else []) ++
+  (if c.segPages != 0 ∧ !inSEG c then ["seg=unsplit"] else []) ++
+  (if unicodeFilter c combos perDb then ["case=unicode"] else [])
+
 def clusterTags (c : Cluster) (combos : List Options) (spec : String) : List String :=
   let nTables : Nat := (c.content.map fun (_, d) => (d.cls.live.filter fun r => r.kind == 114).length).sum
   let nRows : Nat := (c.content.map fun (_, d) => (d.heaps.map fun h => h.2.flatten.length).sum).sum
@@ -212,9 +322,9 @@ def clusterDumpGen (seed idx size : Nat) : Case :=
   let files := Spec.filesOf c
   let mismatch := idx % 10 == 9 && idx ≥ fixedClusters.length
   let spec := joinWith sep (combos.map fun o => showDump (Spec.expectedDump specVal c o))
-  { tags := clusterTags c combos spec ++ (if mismatch then ["hint=wrong"] else []),
+  { tags := clusterTags c combos spec ++ (if mismatch then ["hint=wrong"] else []) ++ findingTags c combos false,
     model := dumpModel files combos,
-    spec := if mismatch then "-" else spec,
+    spec := if mismatch || unicodeFilter c combos false then "-" else spec,
     args := joinWith ";" (combos.map showOpts) :: files.map showFile }
 
 def cluster_dump : Family := { name := "cluster_dump", gen := clusterDumpGen, eval := clusterDumpEval, fixed := fixedClusters.length }
@@ -228,7 +338,7 @@ def filesModel (files : List (Bytes × Bytes)) (oids : List Nat) (combos : List 
   let one (o : Options) (oid : Nat) (nilReader : Bool) : String :=
     let r := Model.dumpDatabaseFromFiles rr idOrder ((fs (Model.basePath oid 1259)).getD []) ((fs (Model.basePath oid 1249)).getD [])
       (if nilReader then none else some fun fn => fs (Model.basePath oid fn)) o
-    showM (fun ts => s!"{if nilReader then "N" else "F"}{oid}[{joinWith "@" ((Spec.sortTables ts).map showTable)}]") r
+    showM (fun ts => s!"{if nilReader then "N" else "F"}{oid}[{joinWith "@" (ts.map showTable)}]") r
   joinWith sep (combos.map fun o =>
     joinWith "#" (oids.map (fun oid => one o oid false) ++ (oids.take 1).map (fun oid => one o oid true)))
 
@@ -253,9 +363,9 @@ def clusterFilesGen (seed idx size : Nat) : Case :=
     | none => ""
   let spec := joinWith sep (combos.map fun o =>
     joinWith "#" (dbs.map (fun db => specOne o db false) ++ (dbs.take 1).map (fun db => specOne o db true)))
-  { tags := clusterTags c combos spec ++ (if mismatch then ["hint=wrong"] else []),
+  { tags := clusterTags c combos spec ++ (if mismatch then ["hint=wrong"] else []) ++ findingTags c combos true,
     model := filesModel files oids combos,
-    spec := if mismatch then "-" else spec,
+    spec := if mismatch || unicodeFilter c combos true then "-" else spec,
     args := (if oids.isEmpty then "-" else joinWith "," (oids.map toString)) :: joinWith ";" (combos.map showOpts) :: files.map showFile }
 
 def cluster_files : Family := { name := "cluster_files", gen := clusterFilesGen, eval := clusterFilesEval, fixed := fixedClusters.length }
@@ -268,9 +378,10 @@ def showRE (t : Spec.RelEntry) : String := showRel t.oid t.filenode t.name t.kin
 def showAttr (name : Bytes) (typid num len : Int) : String := s!"{hexOf name}/{typid}/{num}/{len}"
 def showDbInfo (oid : Nat) (name : Bytes) : String := s!"{oid}/{hexOf name}"
 def showDbOpt (d : Option DatabaseDump) : String := match d with | some d => showDb d | none => "~"
-/-- a whole-cluster dump compared modulo databases without tables (C12: a database without readable pg_class is
-omitted by the directory dump and listed empty by the remote dump) -/
-def showDumpNE (r : DumpResult) : String := showDump (r.filter fun d => !d.tables.isEmpty)
+
+/-- a name as it comes back from the Summary's JSON (`encoding/json` writes U+FFFD for every byte that is not part of a valid
+UTF-8 encoding): the handler observes the summary through json.Marshal / Unmarshal -/
+def jsonName (s : Bytes) : Bytes := (Model.GoCase.runes s).flatMap Model.GoCase.encodeRune
 
 inductive ROp where
   | db (name : Bytes)
@@ -334,10 +445,10 @@ def remoteModel (files : List (Bytes × Bytes)) (ops : List ROp) : M String := d
   out := out.push s!"dump={joinWith "#" dl.toList}"
   let (all, c5) ← Model.rcDumpAll rr idOrder fs c
   c := c5
-  out := out.push s!"all={showDumpNE all}"
+  out := out.push s!"all={showDump all}"
   let (sm, c6) ← Model.summaryDatabases rr idOrder fs c
   c := c6
-  out := out.push s!"sum={joinWith ";" (sm.map fun (n, ts) => s!"{hexOf n}={joinWith "," (ts.map hexOf)}")}"
+  out := out.push s!"sum={joinWith ";" (sm.map fun (n, ts) => s!"{hexOf n}={joinWith "," (ts.map fun t => hexOf (jsonName t))}")}"
   let mut ol : Array String := #[]
   for op in ops do
     match op with
@@ -391,7 +502,7 @@ def genROps (c : Cluster) : Gen (List ROp) := do
   let dbNames := c.dbs.live.map (·.name)
   for n in dbNames.take 4 do
     ops := ops.push (.db n)
-    if ← Gen.prob 1 2 then ops := ops.push (.db (flipCase n))
+    if ← Gen.prob 1 2 then ops := ops.push (.db (if n.any (· ≥ 128) then flipCaseU n else flipCase n))
   ops := ops.push (.db (strBytes "nosuchdb"))
   ops := ops.push (.tn ((dbNames.getD (← Gen.below dbNames.length) [])))
   for db in c.dbs.live do
@@ -401,7 +512,7 @@ def genROps (c : Cluster) : Gen (List ROp) := do
       let rels := d.cls.live.filter (·.filenode != 0)
       for r in rels.take 6 do
         if ← Gen.prob 1 2 then ops := ops.push (.tb db.oid r.name)
-        if ← Gen.prob 1 3 then ops := ops.push (.tb db.oid (flipCase r.name))
+        if ← Gen.prob 1 3 then ops := ops.push (.tb db.oid (if r.name.any (· ≥ 128) then flipCaseU r.name else flipCase r.name))
       ops := ops.push (.tb db.oid (strBytes "nosuchtable"))
       -- queries: on relations with a heap, projections of ≤ 3 columns incl. unknown names, limits 0 … n+1
       let heapRels := rels.filter fun r => (d.heaps.lookup r.filenode).isSome
@@ -420,6 +531,11 @@ def genROps (c : Cluster) : Gen (List ROp) := do
         if ← Gen.prob 1 2 then ops := ops.push (.qn db.name r.name cols (if limit == -99 then 20 else limit))
   return ops.toList
 
+/-- name lookup as the Spec defines it; silent also where the request and the names lie beyond ASCII case
+(`GoCase.foldStable` fails: Go folds by Unicode tables, the Spec by ASCII letters) -/
+def lookupS {α} (name : α → Bytes) (l : List α) (n : Bytes) : Option (Option α) :=
+  if decide (Model.GoCase.foldStable (l.map name) n) then Spec.lookupName name l n else none
+
 def remoteSpec (c : Cluster) (ops : List ROp) : Option String := do
   let dbs := c.dbs.live
   let content (db : Spec.DbRow) := c.content.lookup db.oid
@@ -437,32 +553,34 @@ def remoteSpec (c : Cluster) (ops : List ROp) : Option String := do
       else some s!"{db.oid}.{r.oid}[{joinWith "," (attrs.map fun a => showAttr a.name a.typid a.num a.len)}]({joinWith "," (attrs.map fun a => hexOf a.name)})").flatten
   out := out.push s!"cols={joinWith ";" colEntries}"
   out := out.push s!"dump={joinWith "#" (dbs.map fun db => showDb (Spec.expectedRemoteDb specVal db (content db)))}"
-  let nonTpl := dbs.filter fun db => !Spec.isTemplateName db.name
-  out := out.push s!"all={showDumpNE (nonTpl.map fun db => Spec.expectedRemoteDb specVal db (content db))}"
+  -- DumpAll lists every non-template database (datistemplate), one without a directory with no tables (the directory dump
+  -- omits it: the third, undocumented difference between the two paths — stated in C12_remote_all)
+  let nonTpl := dbs.filter fun db => !db.isTemplate
+  out := out.push s!"all={showDump (nonTpl.map fun db => Spec.expectedRemoteDb specVal db (content db))}"
   let sm := nonTpl.filterMap fun db =>
     let names := ((rels db).filter fun r => r.kind == [114] && !Spec.isPrefixB (strBytes "pg_") r.name && !Spec.isPrefixB (strBytes "sql_") r.name).map (·.name)
-    if names.isEmpty then none else some s!"{hexOf db.name}={joinWith "," (names.map hexOf)}"
+    if names.isEmpty then none else some s!"{hexOf db.name}={joinWith "," (names.map fun t => hexOf (jsonName t))}"
   out := out.push s!"sum={joinWith ";" sm}"
   let mut ol : Array String := #[]
   for op in ops do
     match op with
     | .db n =>
-      let r ← Spec.lookupName (·.name) dbs n
+      let r ← lookupS (·.name) dbs n
       ol := ol.push (match r with | some d => toString d.oid | none => "~")
     | .tb dbOID n =>
       let rs := match c.content.lookup dbOID with | some d => Spec.expectedRels d | none => []
-      let r ← Spec.lookupName (·.name) rs n
+      let r ← lookupS (·.name) rs n
       ol := ol.push (match r with | some t => s!"{t.oid}/{t.filenode}" | none => "~")
     | .tn n =>
-      let r ← Spec.lookupName (·.name) dbs n
+      let r ← lookupS (·.name) dbs n
       ol := ol.push (match r with | some db => joinWith "," ((rels db).map showRE) | none => "")
     | .q dbOID tOID _ cols limit => ol := ol.push (showRows (specQuery c dbOID tOID cols limit))
     | .qn dn tn cols limit =>
-      let db ← Spec.lookupName (·.name) dbs dn
+      let db ← lookupS (·.name) dbs dn
       match db with
       | none => ol := ol.push ""
       | some db =>
-        let t ← Spec.lookupName (·.name) (rels db) tn
+        let t ← lookupS (·.name) (rels db) tn
         match t with
         | none => ol := ol.push ""
         | some t => ol := ol.push (showRows (specQuery c db.oid t.oid cols limit))
@@ -470,16 +588,17 @@ def remoteSpec (c : Cluster) (ops : List ROp) : Option String := do
   pure (joinWith " || " out.toList)
 
 def remoteGen (seed idx size : Nat) : Case :=
-  let (c, ops) := (do let c ← Gen.genCluster size
+  -- the hand-made clusters of `fixedClusters` (sanity, former and open findings) first, then generated ones
+  let (c, ops) := (do let c ← (if idx < fixedClusters.length then pure (fixedClusters.getD idx default).1 else Gen.genCluster size true)
                       let ops ← genROps c
                       return (c, ops)).run' (Prng.ofSeed seed idx)
   let files := Spec.filesOf c
   let spec := remoteSpec c ops
-  { tags := clusterTags c [] (spec.getD "") ++ (if spec.isNone then ["ambiguous-name"] else []),
+  { tags := clusterTags c [] (spec.getD "") ++ (if spec.isNone then ["spec-silent-name"] else []) ++ findingTags c [{}] true true,
     model := showM id (remoteModel files ops), spec := spec.getD "-",
     args := (if ops.isEmpty then "-" else joinWith ";" (ops.map ROp.show)) :: files.map showFile }
 
-def remote : Family := { name := "remote", gen := remoteGen, eval := remoteEval }
+def remote : Family := { name := "remote", gen := remoteGen, eval := remoteEval, fixed := fixedClusters.length }
 
 /-! ### cli (C12): the built pgread binary; the model's decision table names the library call whose rendering
 the handler compares stdout and the exit code with -/
@@ -657,7 +776,7 @@ def genCliFlags (c : Cluster) (idx : Nat) : Gen (Flags × Bool) := do
 
 def cliGen (seed idx size : Nat) : Case :=
   let (c, f, pgdata, toks) := (do
-      let c ← Gen.genCluster size
+      let c ← Gen.genCluster size true
       let (f, pgdata) ← genCliFlags c idx
       let toks ← renderFlags f
       return (c, f, pgdata, toks)).run' (Prng.ofSeed seed idx)
@@ -678,7 +797,7 @@ def repeatFlags : String := "json=1,sql=1,csv=1,files=1,rall=1,rtables=1,rsum=1,
 
 /-- every generated cluster is dumped 20× through every output path; all repetitions must be byte-identical -/
 def repeatGen (seed idx size : Nat) : Case :=
-  let c := (Gen.genCluster size).run' (Prng.ofSeed seed idx)
+  let c := (Gen.genCluster size true).run' (Prng.ofSeed seed idx)
   let files := Spec.filesOf c
   let multi := c.content.any fun (_, d) => (d.cls.live.filter fun r => r.filenode != 0).length ≥ 2
   let collide := c.content.any fun (_, d) =>
@@ -709,7 +828,7 @@ def orderModel (files : List (Bytes × Bytes)) : String :=
   showM id r
 
 def orderGen (seed idx size : Nat) : Case :=
-  let c := (Gen.genCluster size).run' (Prng.ofSeed seed idx)
+  let c := (Gen.genCluster size true).run' (Prng.ofSeed seed idx)
   let files := Spec.filesOf c
   { tags := ["nt"], model := orderModel files, spec := "-", args := files.map showFile }
 
@@ -717,7 +836,7 @@ def order : Family := { name := "order", gen := orderGen, eval := fun args => or
 
 /-- 2..32 goroutines run a mix of entry points on shared input buffers; results must equal the sequential ones -/
 def concurrentGen (seed idx size : Nat) : Case :=
-  let (c, n) := (do let c ← Gen.genCluster size
+  let (c, n) := (do let c ← Gen.genCluster size true
                     let n ← Gen.oneOf [2, 3, 4, 8, 16, 32]
                     return (c, n)).run' (Prng.ofSeed seed idx)
   let files := Spec.filesOf c
@@ -727,7 +846,7 @@ def concurrent : Family := { name := "concurrent", gen := concurrentGen, eval :=
 
 /-- the CLI's single-file listings repeated in separate processes -/
 def repeatCliGen (seed idx size : Nat) : Case :=
-  let c := (Gen.genCluster (size + 1)).run' (Prng.ofSeed seed idx)
+  let c := (Gen.genCluster (size + 1) true).run' (Prng.ofSeed seed idx)
   let files := Spec.filesOf c
   -- the database with the most relations
   let best := (c.content.map fun (oid, d) => ((d.cls.live.filter fun r => r.filenode != 0).length, oid)).foldl (fun a b => if b.1 > a.1 then b else a) (0, 1)
@@ -771,7 +890,7 @@ def catFields : List (Nat × Nat) :=
 
 def catmutGen (seed idx size : Nat) : Case :=
   let (ver, dbF, clsF, attF, heap) : Nat × Bytes × Bytes × Bytes × Option Bytes := (do
-      let c ← Gen.genCluster (min size 1)
+      let c ← Gen.genCluster (min size 1) true
       let files : List (Bytes × Bytes) := Spec.filesOf c
       let find (suffix : String) : Bytes :=
         match files.find? (fun (f : Bytes × Bytes) => (String.fromUTF8! (ByteArray.mk f.1.toArray)).endsWith suffix && f.2.length > 0) with
